@@ -177,12 +177,53 @@ def id_assignment(ctx: Ctx):
         ("not all(('id' in ins for ins in list(self._iter_valid_subtotal_dicts()))) & self._from_view", "[ins if 'id' in ins else {**ins, 'id': self._position_crosswalk(list(self._iter_valid_subtotal_dicts()))[idx]} for idx, ins in enumerate(list(self._iter_valid_subtotal_dicts()))]"),
         ("not all(('id' in ins for ins in list(self._iter_valid_subtotal_dicts()))) & not self._from_view", "[ins if 'id' in ins else {**ins, 'id': idx + 1} for idx, ins in enumerate(list(self._iter_valid_subtotal_dicts()))]"),
     ]
-    ctx.ob("id-assignment", f"{DIM}::_Subtotals._valid_subtotal_dicts_with_ids", leaves, want, leaves == want, "an id-less insertion is numbered by its 1-based display rank when defined on the variable and by its 1-based definition position when defined in the analysis (on a COPY of the dict)")
+    if leaves == want:
+        ctx.held("id-assignment", f"{DIM}::_Subtotals._valid_subtotal_dicts_with_ids", leaves, want, "an id-less insertion is numbered by its 1-based display rank when defined on the variable and by its 1-based definition position when defined in the analysis (on a COPY of the dict)")
+    else:
+        paths = strip_ifexp_paths(body)
+        if len(paths) != len(want):
+            ctx.undecided("id-assignment", f"{DIM}::_Subtotals._valid_subtotal_dicts_with_ids", f"{len(paths)} paths where 3 are specified", want)
+        else:
+            for (gs, leaf), (wg, wl) in zip(paths, want):
+                ctx.check_expr("id-assignment", f"{DIM}::_Subtotals._valid_subtotal_dicts_with_ids [{wg[:50]}]", leaf, wl, "1-based display rank (view) / 1-based definition position (analysis), on a copy of the dict")
     m = ctx.repo.lookup(st, "_position_crosswalk")
-    src = ast.unparse(m.node)
-    norm = "anchor = _Subtotal(ins, self._valid_elements).anchor" in src
-    ret = "return {pos: idx + 1 for idx, pos in enumerate(insertion_order)}" in src
-    ctx.ob("id-assignment.rank", f"{DIM}::_Subtotals._position_crosswalk", f"normalised anchor: {norm}; 1-based rank: {ret}", "rank by the normalised anchor: top group, then per element in payload order, then bottom group", norm and ret)
+    where = f"{DIM}::_Subtotals._position_crosswalk"
+    texts = [u(n) for n in ast.walk(m.node)]
+    normalised = any(t.startswith("_Subtotal(") and t.endswith(".anchor") for t in texts)
+    raw = [t for t in texts if t in ("ins['anchor']", "ins.get('anchor')", "insertion['anchor']", "insertion.get('anchor')")]
+    if normalised and not raw:
+        ctx.held("id-assignment.rank", where + " [anchor]", "ranked by _Subtotal(...).anchor", "rank by the NORMALISED anchor")
+    elif raw and not normalised:
+        ctx.violated("id-assignment.rank", where + " [anchor]", raw, "_Subtotal(ins, self._valid_elements).anchor", "ranked by the raw anchor: a stale / string-typed / mixed-case anchor is ranked differently from where the subtotal is displayed")
+    else:
+        ctx.undecided("id-assignment.rank", where + " [anchor]", f"normalised={normalised} raw={raw}", "rank by the normalised anchor")
+    # 1-based rank: {pos: counter + k} over enumerate(seq, start=s) with s + k == 1
+    verdict, seen = None, None
+    for n in ast.walk(m.node):
+        if isinstance(n, ast.DictComp) and len(n.generators) == 1:
+            g = n.generators[0]
+            if isinstance(g.iter, ast.Call) and u(g.iter.func) == "enumerate" and isinstance(g.target, ast.Tuple) and isinstance(g.target.elts[0], ast.Name):
+                counter = g.target.elts[0].id
+                start = 0
+                if len(g.iter.args) > 1 and isinstance(g.iter.args[1], ast.Constant):
+                    start = g.iter.args[1].value
+                for k in g.iter.keywords:
+                    if k.arg == "start" and isinstance(k.value, ast.Constant):
+                        start = k.value.value
+                v = n.value
+                add = None
+                if isinstance(v, ast.Name) and v.id == counter:
+                    add = 0
+                elif isinstance(v, ast.BinOp) and isinstance(v.op, ast.Add):
+                    a, b = v.left, v.right
+                    if isinstance(a, ast.Name) and a.id == counter and isinstance(b, ast.Constant):
+                        add = b.value
+                    elif isinstance(b, ast.Name) and b.id == counter and isinstance(a, ast.Constant):
+                        add = a.value
+                seen = u(n)[:90]
+                if add is not None and isinstance(start, int):
+                    verdict = (start + add) == 1
+    ctx.ob("id-assignment.rank", where + " [1-based]", seen, "{pos: rank} with ranks 1, 2, ...", verdict, "an id-less view insertion is numbered by its 1-based rank in payload display order")
     # which insertion list gets which numbering: transforms insertions are never numbered as view insertions
     dim = ctx.repo.cls(DIM, "Dimension")
     for prop in ("subtotals", "subtotals_in_payload_order"):
